@@ -610,6 +610,20 @@ pub fn exec_proj<S: Sc + BaseFloat + crate::machine::Exec>(op: &str, fm: &str, a
             let fact = [1.0, 1.0, 2.0, 6.0, 24.0][n as usize];
             Tup(vec![I(ceil_i((d1 - g * d0).abs() / (eps * fact * amax.powi(n)))), B(some), I(ceil_i(resid))])
         }
+        // C12, centroid of more points than a single-precision count can represent: n = 2^24 + 1 copies of the exact integer point
+        // p (|coordinates| <= 1000, the model checks that); the sum n p is exact in double precision, so the centroid — the sum of
+        // the position vectors divided by n — is p bit for bit.  <<centroid == p, n>>.  Double precision only (in single precision
+        // the running sum itself rounds beyond 2^24)
+        ("centroid_big_proj", [pv]) => {
+            if eps > 1.0e-10 { return None; }
+            let n: usize = (1 << 24) + 1;
+            let same = match pv {
+                P1(p) => { let ps = vec![*p; n]; Point1::centroid(&ps) == *p }
+                P2(p) => { let ps = vec![*p; n]; Point2::centroid(&ps) == *p }
+                _ => return None,
+            };
+            Tup(vec![B(same), I(n as i64)])
+        }
         // C02 with a SUBNORMAL determinant ("tiny but non-zero" at the very end of the range): the exact monomial matrix M (one
         // non-zero entry per column, each +-1, +-2 or +-1/2 — the model checks that) is scaled natively by 2^-k, k chosen per
         // dimension and scalar type so that the determinant is a power of two inside the subnormal range.  Every product is an
